@@ -60,10 +60,13 @@ def run(R):
                 R.ob("C09a-accepted-reaches-reset", "%s|accepted|%s" % (tag, [repr(x) for x in evs[:1]]), len(evs) >= 1,
                      "an accepted configuration returns without performing the reset stage")
         for cls in ("InvalidDisplaySize", "InvalidDisplayOffset"):
-            R.ob("C09b-decision-equals-oracle", "%s|%s" % (tag, cls), got[cls] == oracle[cls],
+            R.ob("C09b-decision-equals-oracle", "%s|%s" % (tag, cls), got[cls] == oracle[cls] or C.equivalent_conditions(got[cls], oracle[cls]),
                  "init returns %s exactly when  %r  but the property requires  %r" % (cls, got[cls], oracle[cls]),
                  sample={"class": cls, "code": repr(got[cls]), "oracle": repr(oracle[cls])})
-        R.ob("C09b-decision-equals-oracle", "%s|accepted" % tag, accepted == {oracle["accepted"]},
+        acc_sum = ZERO
+        for a_ in accepted:
+            acc_sum = acc_sum + a_
+        R.ob("C09b-decision-equals-oracle", "%s|accepted" % tag, accepted == {oracle["accepted"]} or C.equivalent_conditions(acc_sum, oracle["accepted"]),
              "init proceeds to the reset stage under  %s  but the property requires  %r" % ([repr(a) for a in accepted], oracle["accepted"]),
              sample={"class": "accepted", "code": [repr(a) for a in accepted], "oracle": repr(oracle["accepted"])})
         R.ob("C09c-no-wrap", "%s|overflow-asserts-discharged" % tag, res.discharged >= 2,
